@@ -630,7 +630,9 @@ func c02Clamp(p *Prog, r *Report) {
 					if id, ok := kv.Key.(*ast.Ident); ok && id.Name == "C1stabilityVal" {
 						if tv, ok := fi.Pkg.TypesInfo.Types[kv.Value]; ok && tv.Value != nil {
 							if cp, ok := constPoly(tv.Value); ok {
-								if c, _ := cp.Const(); c != nil && c.Sign() < 0 {
+								// the documented threshold: 1.5 kg N/ha below zero (frozen value: the default is the
+								// only place where the threshold is stated; a laxer default leaves clamp additions unflagged)
+								if c, _ := cp.Const(); c != nil && c.Sign() < 0 && c.Cmp(ratFrac(-3, 2)) == 0 {
 									neg = true
 								}
 							}
@@ -641,7 +643,7 @@ func c02Clamp(p *Prog, r *Report) {
 			})
 		}
 		ok := flags["GlobalVarsMain.C1NotStable"] && flags["GlobalVarsMain.C1NotStableErr"] && neg
-		r.Ob("clamp-flags", p.Pos(e.Pos), ok, fmt.Sprintf("clamp arm sets flags %v under 'value < C1stabilityVal'; threshold constant negative: %v", keysOf(flags), neg))
+		r.Ob("clamp-flags", p.Pos(e.Pos), ok, fmt.Sprintf("clamp arm sets flags %v under 'value < C1stabilityVal'; threshold default is the documented -1.5 kg N/ha: %v", keysOf(flags), neg))
 		// the threshold is an amount of N (kg N/ha, like C1): the value that is tested against it must be the
 		// very quantity the sibling arm stores into C1[z] — a value in other units (a concentration) is smaller
 		// by orders of magnitude and can never reach the threshold
